@@ -145,12 +145,12 @@ class Monitor:
 
     def snapshot_caller(self, h):
         host = self.run.host
-        glob = host.global_of(h.spec) if h.spec.get('holder') != 'none' else None
+        glob = host.global_of(h.spec)
         return (freeze(h.user), freeze(glob), copy.copy(h.user) if h.user is not None else None)
 
     def check_caller(self, i, op, h, before, allow_text):
         host = self.run.host
-        glob = host.global_of(h.spec) if h.spec.get('holder') != 'none' else None
+        glob = host.global_of(h.spec)
         user_before, glob_before, shallow = before
         if freeze(glob) != glob_before:
             self.run.violate('C20', 'no-mutation', 'caller-dict-modified:global', i, {'op': op, 'global-now': repr(glob)[:600]})
@@ -218,15 +218,16 @@ class Monitor:
         if self.before is not None:
             self.check_caller(i, op, h, self.before, allow_text=True)
             self.before = None
-        if not op.get('c20') or h.user is None or h.spec.get('holder') != 'dict':
+        if not op.get('c20') or h.spec.get('holder') not in ('dict', 'none'):
             return
         if fault is not None or outcome[0].startswith('fault'):
             return
         glob = host.global_of(h.spec)
-        t, s, merged, winner = self.model(h.user, glob)
-        self.note_cells(h.user, glob, t, s)
+        user = h.user if h.user is not None else {}
+        t, s, merged, winner = self.model(user, glob)
+        self.note_cells(user, glob, t, s)
         flat = {}
-        for k, v in h.user.items():
+        for k, v in user.items():
             if k not in SECTIONS and k != 'cache':
                 flat[k] = copy.deepcopy(v)
         flat['type'] = t
@@ -244,7 +245,7 @@ class Monitor:
             run.violate('C20', 'precedence', 'through-expand', i, {
                 'op': op, 'type': t, 'syntax': s,
                 'expand(abbr, user, global)': outcome, 'expand(abbr, {merged by the reference model})': flat_outcome,
-                'user': repr({k: h.user.get(k) for k in SECTIONS if k in h.user})[:600], 'global': repr(glob)[:800]})
+                'user': repr({k: user.get(k) for k in SECTIONS if k in user})[:600], 'global': repr(glob)[:800]})
 
     def finish(self):
         return sorted(self.cells)
